@@ -435,6 +435,9 @@ func histWorker(p *histParams, st *Stats) {
 			}
 		}
 		lastRun = run
+		if stopAtFirst && len(st.Violations) > 0 {
+			break
+		}
 	}
 	if p.ctl == nil && lastRun >= 0 && len(st.Violations) == 0 {
 		nc, nd := 24, 10
